@@ -22,19 +22,19 @@ def programs(ctx: Ctx, n: int):
         yield text, widths, rws, f"gen{k}"
     for text, widths, rws in list(progs.loop_family())[:: 5 if ctx.quick else 1]:
         yield text, widths, rws, "loop-family"
-    for text, widths, rws in progs.nest_family(ctx.rng("nest"), 160 if ctx.quick else 2000):
+    for text, widths, rws in progs.nest_family(ctx.rng("nest"), 160 if ctx.quick else 600):
         yield text, widths, rws, "nest-family"
-    for text, widths, rws in progs.range_fold_family(ctx.rng("rf"), 40 if ctx.quick else 800):
+    for text, widths, rws in progs.range_fold_family(ctx.rng("rf"), 40 if ctx.quick else 300):
         yield text, widths, rws, "range-fold-family"
     for text, widths, rws in progs.carried_family():
         yield text, widths, rws, "carried-family"
-    for text, widths, rws in progs.affine_family(ctx.rng("affine"), 60 if ctx.quick else 1500):
+    for text, widths, rws in progs.affine_family(ctx.rng("affine"), 60 if ctx.quick else 400):
         yield text, widths, rws, "affine-family"
 
 
 def run(ctx: Ctx):
     ctx.level = "translation_validation"
-    cases, metas, stats = tv.tv_cases(ctx, PASSES, programs(ctx, 40 if ctx.quick else 1500), 24 if ctx.quick else 64)
+    cases, metas, stats = tv.tv_cases(ctx, PASSES, programs(ctx, 40 if ctx.quick else 500), 24 if ctx.quick else 32)
     ctx.log(f"{len(cases)} (program, pass) pairs changed by a pass; {stats}")
     tv.judge(ctx, cases, metas, "C16")
     ctx.coverage.update({"pass_stats": stats, "passes": PASSES,
